@@ -326,6 +326,53 @@ pub fn main(args: &Args) -> std::io::Result<()> {
         run_poly(&mut cx, &spec, k, "random", i % 6 == 0 || (args.thorough() && i % 2 == 0));
         k += 1;
     }
+    // simple y-monotone polygons whose two chains meander over the whole width (long pending chains in the
+    // monotone tessellator): right chain downwards, then left chain upwards; a transposed copy for the
+    // horizontal sweep
+    let n_mono = if args.thorough() { 6000 } else { 700 };
+    let x_at = |chain: &[(i64, i64)], y: i64| -> Option<(i64, i64)> {
+        for wd in chain.windows(2) {
+            let (a, b) = (wd[0], wd[1]);
+            if a.1 <= y && y <= b.1 && a.1 != b.1 {
+                return Some((a.0 * (b.1 - a.1) + (y - a.1) * (b.0 - a.0), b.1 - a.1));
+            }
+        }
+        None
+    };
+    let mut made = 0;
+    for _ in 0..n_mono * 6 {
+        let mut r = Rng::new(cx.rng.next_u64());
+        let kk = 3 + r.below(8) as usize;
+        let verts: Vec<(i64, i64, bool)> = (0..kk).map(|i| (r.range(-6, 12), (i as i64 + 1) * 2, r.chance(1, 2))).collect();
+        let (first, last) = ((0i64, 0i64), (r.range(-2, 4), (kk as i64 + 1) * 2));
+        let mut left = vec![first];
+        left.extend(verts.iter().filter(|v| v.2).map(|v| (v.0, v.1)));
+        left.push(last);
+        let mut right = vec![first];
+        right.extend(verts.iter().filter(|v| !v.2).map(|v| (v.0, v.1)));
+        right.push(last);
+        let simple = (1..=kk as i64).all(|j| match (x_at(&left, j * 2), x_at(&right, j * 2)) {
+            (Some((ln, ld)), Some((rn, rd))) => ln * rd < rn * ld,
+            _ => false,
+        });
+        if !simple {
+            continue;
+        }
+        let mut pts: Vec<(f32, f32)> = right.iter().map(|p| (p.0 as f32, p.1 as f32)).collect();
+        pts.extend(left.iter().rev().skip(1).take(left.len().saturating_sub(2)).map(|p| (p.0 as f32, p.1 as f32)));
+        if made % 2 == 1 {
+            for p in pts.iter_mut() {
+                *p = (p.1, p.0);
+            }
+        }
+        let spec = PathSpec::from_polylines(&[pts], &[true]);
+        run_poly(&mut cx, &spec, k, "meandering_monotone", made % 12 == 0 || (args.thorough() && made % 3 == 0));
+        k += 1;
+        made += 1;
+        if made >= n_mono {
+            break;
+        }
+    }
     drop(cx);
     w.finish()?;
     st.write(&args.out.join(format!("{}_stats.json", prefix)))
